@@ -108,7 +108,8 @@ var hookPoints = []string{
 	"offsets.afterRename",
 }
 
-var streamNames = []string{"stdout", "stderr", "s-3", ""}
+// the third name carries the separator of the offsets file ("name: offset") inside the stream value
+var streamNames = []string{"stdout", "stderr", "s: 3", ""}
 
 // hostile padding pieces: escapes, multi-byte runes, JSON look-alikes.
 var padPieces = []string{
@@ -526,7 +527,7 @@ func genHeld(idx int, seed int64, persistence string, variant int, thorough bool
 	g.openGroup = []map[string]bool{{}}
 	early, late := "stdout", "stderr"
 	if r.Intn(2) == 0 {
-		early, late = "s-3", ""
+		early, late = "s: 3", ""
 	}
 	g.fileStream = [][]string{{early, late}}
 	s.Streams = []string{early, late}
